@@ -100,4 +100,18 @@ def run(op, a):
         m.vout[:] = e.vout
         m.wit = witness_from_val(a[1][3])
         return [w0, obs(m.calc_weight)]
+    if op == 10:
+        # the real constructor on transactions given as values; nothing else is observed
+        from .txconv import tx_from_val
+        h, tvs = a[0]
+        txs = [tx_from_val(t, mutable=bool(h[3] % 2)) for t in tvs]
+        try:
+            blk = CBlock(h[0], h[1], h[2], h[3], h[4], h[5], txs)
+        except Exception as e:  # noqa
+            return vals.classify(e)
+        if h[3] % 2:
+            for m in txs:             # the block took snapshots of the mutable transactions
+                m.nVersion = 7
+                m.vin.clear()
+        return [blk.hashMerkleRoot, obs(blk.calc_merkle_root), obs(blk.calc_witness_merkle_root)]
     raise ValueError('op')
